@@ -204,7 +204,8 @@ class NMEA2000Decoder():
         
         # Extract the CAN data from the remaining parts
         # Convert to bytes
-        bytes_data = bytes.fromhex(parts[3])
+        # a message whose payload is empty (all-zero variable length message) has no data token
+        bytes_data = bytes.fromhex(parts[3]) if len(parts) > 3 else b""
 
         # Reverse the byte order
         reversed_bytes = bytes_data[::-1]
